@@ -45,6 +45,10 @@ class Report:
 
     # status: True = discharged, False = violated, None = undecided
     def ob(self, rule, key, status, detail='', where=None, **payload):
+        if status is False and getattr(self, 'unreliable', None) and rule not in ('anchor',):
+            # the analysis met library code it has no model for: what it concludes from there on is not a verdict
+            status = None
+            detail = f'[not decided: {self.unreliable}] ' + detail
         self.obls.append((rule, key, status, detail))
         if status is False:
             p = dict(rule=rule, instance=key, detail=detail, where=where)
